@@ -164,10 +164,13 @@ def run_case(cls, case_idx, timeout_ms=None):
             out = Out("unsupported", msg=str(u))
         cx.fn_stack.append(cls.target or cls.name)
         if out.outcome != "unsupported":
+            cx.spec_side += 1
             try:
                 c.post(itp, case, (args, kwargs), out)
             except Unsupported as u:
                 out = Out("unsupported", msg="in post-condition: " + str(u))
+            finally:
+                cx.spec_side -= 1
         return PathResult(cx, out.outcome, out.value, out.exc if out.outcome == "raise" else out.msg)
 
     try:
